@@ -2069,6 +2069,13 @@ def str_method(I, s, name, args, kw):
         return VStr(z3.Replace(s.e, args[0].e, args[1].e)) if False else I.ver.opaque_str("replace", VTuple([s] + list(args)), I)
     if name == "find":
         return VInt(z3.IndexOf(s.e, args[0].e, 0))
+    if name == "count" and len(args) == 1 and isinstance(args[0], VStr):
+        # number of non-overlapping occurrences: an uninterpreted function, only 0 <= count <= len(s) is assumed
+        f = z3.Function("str_count", z3.StringSort(), z3.StringSort(), z3.IntSort())
+        r = f(s.e, args[0].e)
+        I.path.assume(z3.And(r >= 0, r <= z3.Length(s.e)))
+        I.ver.note_assumption("str.count is uninterpreted (0 <= count <= len)")
+        return VInt(r)
     if name == "join":
         xs = I.force(args[0])
         if isinstance(xs, VTuple):
